@@ -11,6 +11,7 @@
 //!   5 recv        a = connection, b = endpoint       (new slot)
 //!   6 as_ref  7 as_mut  8 into_inner   a = slot
 //!   9 provider drop   10 provider keep   a = value
+//!   11 send big   like 4, inside a message larger than max_data_size with the handle ahead of the bulk (serialized twice)
 //! Slots are numbered in order of creation (new, clone, recv), values in order of `new`.
 //! Output per op: code arg alive
 //!   code 0 unit | 1 handle (arg = slot) | 2 value (arg = value id read from the REAL value) | 3 Unknown |
@@ -62,6 +63,13 @@ enum Item {
     B(Handle<Val<1>>),
 }
 
+/// what travels: the handle first, then padding (empty, or more than max_data_size)
+#[derive(Serialize, Deserialize)]
+struct Msg {
+    item: Item,
+    pad: Vec<u8>,
+}
+
 async fn barrier() {
     for _ in 0..2 {
         tokio::time::sleep(Duration::from_nanos(1)).await;
@@ -72,6 +80,20 @@ async fn barrier() {
 async fn upto_quiescence<T>(fut: impl Future<Output = T>) -> Option<T> {
     tokio::pin!(fut);
     for _ in 0..2 {
+        tokio::select! {
+            biased;
+            r = &mut fut => return Some(r),
+            _ = tokio::time::sleep(Duration::from_nanos(1)) => {}
+        }
+    }
+    None
+}
+
+/// like `upto_quiescence`, for operations that may run (de)serializer threads (messages above max_data_size):
+/// while such a thread is at work the paused clock does not advance, so this simply waits for them
+async fn big_upto_quiescence<T>(fut: impl Future<Output = T>) -> Option<T> {
+    tokio::pin!(fut);
+    for _ in 0..60 {
         tokio::select! {
             biased;
             r = &mut fut => return Some(r),
@@ -143,15 +165,18 @@ fn other_end(c: usize, side: usize) -> usize {
 }
 
 async fn run_case(ops: &[(u128, u128, u128)]) -> Option<Trace> {
-    let mut txs: Vec<Vec<base::Sender<Item>>> = Vec::new();
-    let mut rxs: Vec<Vec<base::Receiver<Item>>> = Vec::new();
+    // the first streamed (de)serialization of a process probes for threads with a plain std thread, which the paused
+    // clock does not wait for: do it once here
+    let _ = remoc::exec::are_threads_available().await;
+    let mut txs: Vec<Vec<base::Sender<Msg>>> = Vec::new();
+    let mut rxs: Vec<Vec<base::Receiver<Msg>>> = Vec::new();
     let mut muxes = Vec::new();
     let mut nets = Vec::new();
     for _ in 0..3 {
         let net = Net::new(true);
         let (a, b) = tokio::join!(
-            Connect::framed::<_, _, Item, Item, codec::Default>(Cfg::default(), net.a2b.sink(), net.b2a.stream()),
-            Connect::framed::<_, _, Item, Item, codec::Default>(Cfg::default(), net.b2a.sink(), net.a2b.stream()),
+            Connect::framed::<_, _, Msg, Msg, codec::Default>(Cfg { max_data_size: 2048, ..Cfg::default() }, net.a2b.sink(), net.b2a.stream()),
+            Connect::framed::<_, _, Msg, Msg, codec::Default>(Cfg { max_data_size: 2048, ..Cfg::default() }, net.b2a.sink(), net.a2b.stream()),
         );
         let (ca, ta, ra) = a.ok()?;
         let (cb, tb, rb) = b.ok()?;
@@ -241,23 +266,29 @@ async fn run_case(ops: &[(u128, u128, u128)]) -> Option<Trace> {
                 }
                 None => Res::NotApplicable,
             },
-            4 => {
+            4 | 11 => {
                 let live = slots.get(a).map(|s| s.is_some()).unwrap_or(false);
                 match (live, if live { side_of(b, slot_ep[a]) } else { None }) {
                     (true, Some(side)) => {
                         let it = slots[a].take().unwrap();
-                        match upto_quiescence(txs[b][side].send(it)).await {
+                        let pad = if op == 11 { vec![0x5a; 5000] } else { Vec::new() };
+                        match big_upto_quiescence(txs[b][side].send(Msg { item: it, pad })).await {
                             Some(Ok(())) => Res::Unit,
-                            _ => Res::ChanErr,
+                            other => {
+                                if std::env::var_os("VH_DEBUG").is_some() {
+                                    eprintln!("send: {:?}", other.map(|r| r.map_err(|e| e.to_string())));
+                                }
+                                Res::ChanErr
+                            }
                         }
                     }
                     _ => Res::NotApplicable,
                 }
             }
             5 => match side_of(a, b) {
-                Some(side) => match upto_quiescence(rxs[a][side].recv()).await {
-                    Some(Ok(Some(it))) => {
-                        slots.push(Some(it));
+                Some(side) => match big_upto_quiescence(rxs[a][side].recv()).await {
+                    Some(Ok(Some(m))) => {
+                        slots.push(Some(m.item));
                         slot_ep.push(b);
                         Res::Handle(slots.len() - 1)
                     }
@@ -535,7 +566,7 @@ pub fn exec(inp: &[u128]) -> (Vec<u128>, String, String) {
         return (vec![98], "malformed".into(), "ok".into());
     }
     let ops: Vec<(u128, u128, u128)> = inp.chunks(3).map(|c| (c[0], c[1], c[2])).collect();
-    if ops.iter().any(|o| o.0 > 10 || o.1 > 1000 || o.2 > 1000) {
+    if ops.iter().any(|o| o.0 > 11 || o.1 > 1000 || o.2 > 1000) {
         return (vec![98], "malformed".into(), "ok".into());
     }
     let (txr, rxr) = std::sync::mpsc::channel();
@@ -564,7 +595,9 @@ pub fn exec(inp: &[u128]) -> (Vec<u128>, String, String) {
         }
         out.push(mask);
     }
-    let (verdict, feats) = oracle(&ops, &t);
+    // the oracle does not distinguish a big send from a small one
+    let ops_norm: Vec<(u128, u128, u128)> = ops.iter().map(|o| if o.0 == 11 { (4, o.1, o.2) } else { *o }).collect();
+    let (verdict, feats) = oracle(&ops_norm, &t);
     let mut sig = String::from("handle");
     if t.nvals == 0 {
         sig.push_str(":novalue");
@@ -647,7 +680,7 @@ pub fn gen(r: &mut Rng, _i: usize) -> Vec<Vec<u128>> {
                     live.push(true);
                     src = live.len() - 1;
                 }
-                ops.push((4, src as u64, c));
+                ops.push((if r.chance(1, 4) { 11 } else { 4 }, src as u64, c));
                 live[src] = false;
                 let side = if e == c { 1 } else { 0 };
                 flight[c as usize][side] += 1;
